@@ -59,12 +59,22 @@ def make_env(cfg: tuple[str, bool, bool], partials: dict[str, str]):
     return Env(loader=DictLoader(partials), default_trim=wc)
 
 
+_PARSED: dict[Any, Any] = {}
+
+
 def real_render(cfg, source: str, partials: dict[str, str], data: dict[str, Any]) -> tuple[str, Any]:
     from liquid2.exceptions import LiquidError
 
     try:
-        env = make_env(cfg, partials)
-        return "ok", env.from_string(source).render(**copy.deepcopy(data))
+        # consecutive renders of one source (other data) reuse the parsed Template, as
+        # callers do: what a render leaves behind on the Template must not change the next
+        key = (tuple(cfg), source, tuple(sorted(partials.items())))
+        tpl = _PARSED.get(key)
+        if tpl is None:
+            tpl = make_env(cfg, partials).from_string(source)
+            _PARSED.clear()
+            _PARSED[key] = tpl
+        return "ok", tpl.render(**copy.deepcopy(data))
     except LiquidError as e:
         return "err", type(e).__name__
     except RecursionError:
